@@ -221,160 +221,20 @@ func runC20(r *Report) {
 	}
 
 	// ---- R-C20-2 full reads straight from the connection --------------------------------
-	hs := r.need("R-C20-2", s5Pkg, "Listener.Handshake")
-	if hs != nil && len(hs.Params) >= 2 {
-		// the analysis unit: Handshake and the same-package helpers it hands the connection to
-		// (a split into negotiateAuth/readRequest-style helpers is the same negotiation)
-		unit := paramUnit(hs, hs.Params[1], 3)
-		names := []string{}
-		for _, m := range unit {
-			names = append(names, m.Fn.Name())
-			hasRead := false
-			for _, sub := range paramUnit(m.Fn, m.Param, 3) {
-				Instrs(sub.Fn, func(in ssa.Instruction) {
-					if ci, ok := in.(ssa.CallInstruction); ok && ClassifyRead(ci).Shape != "unknown" {
-						hasRead = true
-					}
-				})
-			}
-			// a helper that reads negotiation fields is a negotiation step: its failure must end the
-			// negotiation (reply helpers such as SendError are best-effort and exempt)
-			if m.From != nil && hasRead {
-				r.Ob("R-C20-3", CallPos(m.From), errorPropagated(m.From), "the error of negotiation helper "+m.Fn.Name()+" ends the negotiation (returned as is, or no success return on its failed edge)", "Handshake", "helper-error-propagated:"+m.Fn.Name())
-			}
-		}
-		r.Note("C20 negotiation unit: %s", strings.Join(names, ", "))
-		widths := map[string]int{}
-		nReads := 0
-		seen := map[int64]bool{}
-		wrote := false
-		type rej struct {
-			code int64
-			what string
-		}
-		for _, m := range unit {
-			fn, conn := m.Fn, ssa.Value(m.Param)
-			Instrs(fn, func(in ssa.Instruction) {
-				ci, ok := in.(ssa.CallInstruction)
-				if !ok {
-					return
-				}
-				rs := ClassifyRead(ci)
-				if rs.Shape == "unknown" {
-					return
-				}
-				nReads++
-				src := originSummary(rs.Reader)
-				direct := stripValue(rs.Reader) == conn
-				r.Ob("R-C20-2", CallPos(ci), rs.Shape == "full", "negotiation field read is "+rs.Shape+": a field split across TCP segments must still be read whole", "Handshake", "field-full-read")
-				r.Ob("R-C20-2", CallPos(ci), direct, "negotiation reads from "+src+" (want the connection itself: a buffering wrapper reads ahead and swallows the application's first payload bytes)", "Handshake", "reads-conn-directly")
-				buf := Arg(ci, 1)
-				l, k := bufLen(buf)
-				w := fmt.Sprint(k)
-				if k < 0 && l != nil {
-					w = "var"
-					// variable width must come from a decoded length byte
-					o := originSummary(l)
-					if !strings.HasPrefix(o, "index:") {
-						w = "var?" + o
-					}
-				}
-				widths[w]++
-			})
-
-			// ---- R-C20-3 reject replies ---------------------------------------------------------
-			for _, se := range Calls(fn, false, "Listener.SendError") {
-				code, _ := ConstInt(Arg(se, 1))
-				seen[code] = true
-				// followed by an error return on every path, and nothing else written
-				hits := WalkFrom(nil, se.(ssa.Instruction), func(in ssa.Instruction) int {
-					if ret, ok := in.(*ssa.Return); ok {
-						if RetErrKind(ret) == "nil" {
-							return Hit
-						}
-						return Stop
-					}
-					return Cont
-				}, nil)
-				r.Ob("R-C20-3", CallPos(se), len(hits) == 0, fmt.Sprintf("reply 0x%02x is followed by an error return", code), "Handshake", fmt.Sprintf("reply-then-error:%d", code))
-				// facts: what was tested
-				facts := ""
-				for _, ft := range Facts(se.Block()) {
-					if bo, ok := ft.Cond.(*ssa.BinOp); ok {
-						if k, isC := ConstInt(bo.Y); isC {
-							facts += fmt.Sprintf("[%s %s %d =%v]", originSummary(bo.X), bo.Op, k, ft.Pol)
-						}
-					}
-				}
-				var ok bool
-				switch code {
-				case 7: // command not supported: cmd != 1 and cmd != 3
-					ok = strings.Contains(facts, "!= 1 =true") && strings.Contains(facts, "!= 3 =true")
-				case 8: // address type not supported: none of 1,3,4
-					ok = strings.Contains(facts, "== 1 =false") && strings.Contains(facts, "== 3 =false") && strings.Contains(facts, "== 4 =false")
-				case 1: // general failure: bad version in the request
-					ok = strings.Contains(facts, "!= 5 =true")
-				}
-				r.Ob("R-C20-3", CallPos(se), ok, fmt.Sprintf("reply 0x%02x is sent on the rejecting edge of the matching test (facts: %s)", code, facts), "Handshake", fmt.Sprintf("reply-on-edge:%d", code))
-			}
-			// every error return of the request phase that is decided by a protocol test passes a reply
-			for _, ret := range Returns(fn) {
-				if RetErrKind(ret) == "nil" {
-					continue
-				}
-				protoTest := false
-				for _, ft := range Facts(ret.Block()) {
-					bo, ok := ft.Cond.(*ssa.BinOp)
-					if !ok {
-						continue
-					}
-					o := originSummary(bo.X)
-					if _, isC := ConstInt(bo.Y); isC && strings.HasPrefix(o, "index:") && ft.If.Block().Dominates(ret.Block()) {
-						// a test on a byte of the 4-byte request head (buffer of width 4)
-						if u, ok := stripValue(bo.X).(*ssa.UnOp); ok {
-							if ia, ok := u.X.(*ssa.IndexAddr); ok {
-								if _, k := bufLen(ia.X); k == 4 {
-									protoTest = true
-								}
-							}
-						}
-					}
-				}
-				if !protoTest {
-					continue
-				}
-				// only returns directly decided by such a test (no I/O error in between)
-				ioErr := false
-				for _, ft := range Facts(ret.Block()) {
-					if x, isnil, ok := ft.FactNil(); ok && !isnil && x.Type().String() == "error" {
-						ioErr = true
-					}
-				}
-				if ioErr {
-					continue
-				}
-				replied := !ReachesWithout(fn, ret, func(in ssa.Instruction) bool {
-					ci, ok := in.(ssa.CallInstruction)
-					return ok && CalleeOf(ci).Is("Listener.SendError")
-				})
-				r.Ob("R-C20-3", ret.Pos(), replied, "a request rejected by a protocol test gets its RFC reply before the error return", "Handshake", "rejection-replied")
-			}
-			// method selection: {5, method} written to the connection
-			for _, w := range Calls(fn, false, "Write") {
-				if stripValue(Recv(w)) != conn {
-					continue
-				}
-				if _, k := bufLen(bufArg(w)); k == 2 {
-					wrote = true
-				}
-			}
-		}
-		okW := widths["2"] == 2 && widths["4"] == 2 && widths["1"] == 1 && widths["16"] == 1 && widths["var"] == 2 && nReads == 8
-		r.Ob("R-C20-2", hs.Pos(), okW, fmt.Sprintf("field widths read: %v (want 2x2 [ver/nmethods, port], 2x4 [request head, IPv4], 1x1 [domain length], 1x16 [IPv6], 2 variable [methods, domain])", widths), "Handshake", "rfc-widths")
-		for _, c := range []rej{{1, "bad version in request -> general failure"}, {7, "unsupported command"}, {8, "unsupported address type"}} {
-			r.Ob("R-C20-3", hs.Pos(), seen[c.code], "a reply is written for: "+c.what, "Handshake", fmt.Sprintf("reply-exists:%d", c.code))
-		}
-		r.Ob("R-C20-3", hs.Pos(), wrote, "the method-selection reply {VER, METHOD} (2 bytes) is written", "Handshake", "method-reply")
+	if hs := r.need("R-C20-2", s5Pkg, "Listener.Handshake"); hs != nil {
+		checkSocksNegotiation(r, hs, "Handshake", socksNegCfg{
+			reply:  "Listener.SendError",
+			widths: map[string]int{"2": 2, "4": 2, "1": 1, "16": 1, "var": 2}, nReads: 8,
+			widthsDoc: "2x2 [ver/nmethods, port], 2x4 [request head, IPv4], 1x1 [domain length], 1x16 [IPv6], 2 variable [methods, domain]",
+			codes:     map[int64]bool{1: true, 7: true, 8: true}, methodReply: true, cmds: []int{1, 3}})
+	}
+	// sibling implementation: the server-side SOCKS adapter parses the same request
+	if ah := r.need("R-C20-2", "internal/protocol/adapter", "SocksAdapter.handleRequest"); ah != nil {
+		checkSocksNegotiation(r, ah, "adapter.handleRequest", socksNegCfg{
+			reply:  "SocksAdapter.sendReply",
+			widths: map[string]int{"2": 1, "4": 2, "1": 1, "16": 1, "var": 1}, nReads: 6,
+			widthsDoc: "2x4 [request head, IPv4], 1x1 [domain length], 1x16 [IPv6], 1 variable [domain], 1x2 [port]",
+			codes:     map[int64]bool{7: true, 8: true}, cmds: []int{1}})
 	}
 
 	// ---- R-C20-4 in-range access in parseUDPHeader ------------------------------------------
@@ -518,4 +378,206 @@ func linShape(v ssa.Value) string {
 		return "v"
 	}
 	return fmt.Sprintf("%d+v", l.c)
+}
+
+type socksNegCfg struct {
+	reply       string // reply helper, error code is argument 1
+	widths      map[string]int
+	widthsDoc   string
+	nReads      int
+	codes       map[int64]bool // reject codes this implementation must send
+	methodReply bool
+	cmds        []int // commands the implementation supports (everything else is answered 0x07)
+}
+
+// checkSocksNegotiation applies the negotiation rules (full field reads straight from the
+// connection with RFC widths; reject replies on the matching edges followed by an error) to one
+// implementation of the server side of RFC 1928. hs is the entry point; its parameter 1 is the
+// connection.
+func checkSocksNegotiation(r *Report, hs *ssa.Function, label string, cfg socksNegCfg) {
+	if hs != nil && len(hs.Params) >= 2 {
+		// the analysis unit: Handshake and the same-package helpers it hands the connection to
+		// (a split into negotiateAuth/readRequest-style helpers is the same negotiation)
+		unit := paramUnit(hs, hs.Params[1], 3)
+		names := []string{}
+		for _, m := range unit {
+			names = append(names, m.Fn.Name())
+			hasRead := false
+			for _, sub := range paramUnit(m.Fn, m.Param, 3) {
+				Instrs(sub.Fn, func(in ssa.Instruction) {
+					if ci, ok := in.(ssa.CallInstruction); ok && ClassifyRead(ci).Shape != "unknown" {
+						hasRead = true
+					}
+				})
+			}
+			// a helper that reads negotiation fields is a negotiation step: its failure must end the
+			// negotiation (reply helpers such as SendError are best-effort and exempt)
+			if m.From != nil && hasRead {
+				r.Ob("R-C20-3", CallPos(m.From), errorPropagated(m.From), "the error of negotiation helper "+m.Fn.Name()+" ends the negotiation (returned as is, or no success return on its failed edge)", label, "helper-error-propagated:"+m.Fn.Name())
+			}
+		}
+		r.Note("C20 negotiation unit of %s: %s", label, strings.Join(names, ", "))
+		widths := map[string]int{}
+		nReads := 0
+		seen := map[int64]bool{}
+		wrote := false
+		type rej struct {
+			code int64
+			what string
+		}
+		for _, m := range unit {
+			fn, conn := m.Fn, ssa.Value(m.Param)
+			Instrs(fn, func(in ssa.Instruction) {
+				ci, ok := in.(ssa.CallInstruction)
+				if !ok {
+					return
+				}
+				rs := ClassifyRead(ci)
+				if rs.Shape == "unknown" {
+					return
+				}
+				nReads++
+				src := originSummary(rs.Reader)
+				direct := stripValue(rs.Reader) == conn
+				r.Ob("R-C20-2", CallPos(ci), rs.Shape == "full", "negotiation field read is "+rs.Shape+": a field split across TCP segments must still be read whole", label, "field-full-read")
+				r.Ob("R-C20-2", CallPos(ci), direct, "negotiation reads from "+src+" (want the connection itself: a buffering wrapper reads ahead and swallows the application's first payload bytes)", label, "reads-conn-directly")
+				buf := Arg(ci, 1)
+				l, k := bufLen(buf)
+				w := fmt.Sprint(k)
+				if k < 0 && l != nil {
+					w = "var"
+					// variable width must come from a decoded length byte
+					o := originSummary(l)
+					if !strings.HasPrefix(o, "index:") {
+						w = "var?" + o
+					}
+				}
+				widths[w]++
+			})
+
+			// ---- R-C20-3 reject replies ---------------------------------------------------------
+			for _, se := range Calls(fn, false, cfg.reply) {
+				code, _ := ConstInt(Arg(se, 1))
+				seen[code] = true
+				// followed by an error return on every path, and nothing else written
+				hits := WalkFrom(nil, se.(ssa.Instruction), func(in ssa.Instruction) int {
+					if ret, ok := in.(*ssa.Return); ok {
+						if RetErrKind(ret) == "nil" {
+							return Hit
+						}
+						return Stop
+					}
+					return Cont
+				}, nil)
+				r.Ob("R-C20-3", CallPos(se), len(hits) == 0, fmt.Sprintf("reply 0x%02x is followed by an error return", code), label, fmt.Sprintf("reply-then-error:%d", code))
+				// facts: what was tested
+				facts := ""
+				for _, ft := range Facts(se.Block()) {
+					if bo, ok := ft.Cond.(*ssa.BinOp); ok {
+						if k, isC := ConstInt(bo.Y); isC {
+							facts += fmt.Sprintf("[%s %s %d =%v]", originSummary(bo.X), bo.Op, k, ft.Pol)
+						}
+					}
+				}
+				var ok bool
+				switch code {
+				case 7: // command not supported: cmd != 1 and cmd != 3
+					ok = true
+					for _, c := range cfg.cmds {
+						if !strings.Contains(facts, fmt.Sprintf("!= %d =true", c)) {
+							ok = false
+						}
+					}
+				case 8: // address type not supported: none of 1,3,4
+					ok = strings.Contains(facts, "== 1 =false") && strings.Contains(facts, "== 3 =false") && strings.Contains(facts, "== 4 =false")
+				case 1: // general failure: bad version in the request
+					ok = strings.Contains(facts, "!= 5 =true")
+				}
+				r.Ob("R-C20-3", CallPos(se), ok, fmt.Sprintf("reply 0x%02x is sent on the rejecting edge of the matching test (facts: %s)", code, facts), label, fmt.Sprintf("reply-on-edge:%d", code))
+			}
+			// every error return of the request phase that is decided by a protocol test passes a reply
+			for _, ret := range Returns(fn) {
+				if RetErrKind(ret) == "nil" {
+					continue
+				}
+				protoTest := false
+				for _, ft := range Facts(ret.Block()) {
+					bo, ok := ft.Cond.(*ssa.BinOp)
+					if !ok {
+						continue
+					}
+					o := originSummary(bo.X)
+					if _, isC := ConstInt(bo.Y); isC && strings.HasPrefix(o, "index:") && ft.If.Block().Dominates(ret.Block()) {
+						// a test on a byte of the 4-byte request head (buffer of width 4)
+						if u, ok := stripValue(bo.X).(*ssa.UnOp); ok {
+							if ia, ok := u.X.(*ssa.IndexAddr); ok {
+								if _, k := bufLen(ia.X); k == 4 {
+									protoTest = true
+								}
+							}
+						}
+					}
+				}
+				if !protoTest {
+					continue
+				}
+				// only returns directly decided by such a test (no I/O error in between)
+				ioErr := false
+				for _, ft := range Facts(ret.Block()) {
+					if x, isnil, ok := ft.FactNil(); ok && !isnil && x.Type().String() == "error" {
+						ioErr = true
+					}
+				}
+				if ioErr {
+					continue
+				}
+				if !cfg.codes[1] {
+					// this implementation refuses a bad version without a reply: only command / address-type
+					// rejections must be answered
+					isVer := false
+					for _, ft := range Facts(ret.Block()) {
+						if bo, ok := ft.Cond.(*ssa.BinOp); ok && ft.If.Block() == ret.Block().Idom() {
+							if k, isC := ConstInt(bo.Y); isC && k == 5 {
+								isVer = true
+							}
+						}
+					}
+					if isVer {
+						continue
+					}
+				}
+				replied := !ReachesWithout(fn, ret, func(in ssa.Instruction) bool {
+					ci, ok := in.(ssa.CallInstruction)
+					return ok && CalleeOf(ci).Is(cfg.reply)
+				})
+				r.Ob("R-C20-3", ret.Pos(), replied, "a request rejected by a protocol test gets its RFC reply before the error return", label, "rejection-replied")
+			}
+			// method selection: {5, method} written to the connection
+			for _, w := range Calls(fn, false, "Write") {
+				if stripValue(Recv(w)) != conn {
+					continue
+				}
+				if _, k := bufLen(bufArg(w)); k == 2 {
+					wrote = true
+				}
+			}
+		}
+		okW := nReads == cfg.nReads
+		for k, v := range cfg.widths {
+			if widths[k] != v {
+				okW = false
+			}
+		}
+		r.Ob("R-C20-2", hs.Pos(), okW, fmt.Sprintf("field widths read: %v (want %s)", widths, cfg.widthsDoc), label, "rfc-widths")
+		for _, c := range []rej{{1, "bad version in request -> general failure"}, {7, "unsupported command"}, {8, "unsupported address type"}} {
+			if !cfg.codes[c.code] {
+				continue
+			}
+			r.Ob("R-C20-3", hs.Pos(), seen[c.code], "a reply is written for: "+c.what, label, fmt.Sprintf("reply-exists:%d", c.code))
+		}
+		if cfg.methodReply {
+			r.Ob("R-C20-3", hs.Pos(), wrote, "the method-selection reply {VER, METHOD} (2 bytes) is written", label, "method-reply")
+		}
+	}
+
 }
